@@ -24,7 +24,9 @@ mod p_simd;
 mod p_snippet;
 mod p_sketch;
 mod p_text;
+mod s_lock;
 mod s_wal;
+mod x_crash;
 
 use common::Tier;
 
@@ -34,6 +36,14 @@ fn main() {
         common::quiet_panics();
         worker(&args[2]);
         return;
+    }
+    if args.len() >= 3 && args[1] == "--lock-second-writer" {
+        common::quiet_panics();
+        s_lock::second_writer_main(&args[2]);
+    }
+    if args.len() >= 3 && args[1] == "--crash-child" {
+        common::quiet_panics();
+        x_crash::child_main(&args[2]);
     }
     if args.len() >= 2 && args[1] == "exp" {
         exp::run(&args[2..]);
@@ -55,6 +65,9 @@ fn main() {
     common::quiet_panics();
     let code = match args[1].as_str() {
         "C01" => h_c01::run_c01(tier, replay),
+        "C02" => x_crash::run("C02", tier, replay),
+        "C03" => x_crash::run("C03", tier, replay),
+        "C04" => x_crash::run("C04", tier, replay),
         "C05" => s_wal::run(tier, replay),
         "C06" => h_c01::run_c06(tier, replay),
         "C07" => h_content::run(tier, replay),
@@ -66,6 +79,7 @@ fn main() {
         "C14" => h_c01::run_c14(tier, replay),
         "C15" => h_timeline::run(tier, replay),
         "C16" => q_page::run(tier, replay),
+        "C17" => s_lock::run(tier, replay),
         "C18" => h_readonly::run(tier, replay),
         "C19" => h_c01::run_c19(tier, replay),
         "C23" => h_determinism::run(tier, replay),
@@ -96,6 +110,8 @@ fn worker(kind: &str) {
     match kind {
         "c32" => p_query::worker(),
         "hist" => hist::worker(),
+        "c17" => s_lock::worker(),
+        "crash" => x_crash::worker(),
         "c23" => h_determinism::worker(),
         "c40" => h_bulk::worker(),
         "c27" => h_cards::worker(),
